@@ -230,6 +230,62 @@ pub fn run(ctx: &Ctx, rep: &mut Report) {
             }
         }
     }
+    // conversations: 2..6 valid messages of random types on one parser, their station numbers all
+    // drawn from a pool of two (an inquiry followed by a report of the station it was addressed to,
+    // an addressed message followed by its acknowledgement ...): each line's variant follows its own
+    // six type bits whatever was said before
+    for ci in 0..ctx.budget(40_000, 600_000) {
+        if !ctx.mine(ci) {
+            continue;
+        }
+        let pool = [*r.pick(&gen::SPECIAL_MMSI) as u64, r.bits(30)];
+        let mut p = Parser::new();
+        let mut hist: Vec<(Vec<u8>, bool)> = Vec::new();
+        // every ordered pair of types is met often: 21 x 21 pairs, budget / 441 repetitions each
+        // the first conversations enumerate every ordered pair of layouts (8 draws of the station
+        // numbers each); the rest are random and longer
+        let nb = gen::BRANCHES.len() as u64;
+        let pair = if ci < nb * nb * 8 { Some((((ci / 8) / nb) as usize, ((ci / 8) % nb) as usize)) } else { None };
+        let n = if pair.is_some() { 2 } else { r.usize(2, 6) };
+        for mi in 0..n {
+            let b = match pair {
+                Some((i, j)) => &gen::BRANCHES[if mi == 0 { i } else { j }],
+                None => r.pick(gen::BRANCHES),
+            };
+            if b.len > 1008 {
+                continue;
+            }
+            let (chars, fill) = super::c04::fresh_with_pool(b, &mut r, &pool).to_armor();
+            if mon::is_noalloc() && chars.len() > 384 {
+                continue;
+            }
+            let line = nmea_ref::mk(1, 1, None, &chars, fill);
+            hist.push((line.clone(), true));
+            rep.eval();
+            match p.parse(&line, true) {
+                Call::Panic(pi) => {
+                    rep.violation(PID, format!("panic@{}", pi.loc), pi.msg.clone(), || mon::replay_history(&hist, "conversation"));
+                    break;
+                }
+                Call::Done(Outcome::Complete(s)) => {
+                    let v = s.message.as_ref().map(|m| m.variant);
+                    let tf = s.message.as_ref().and_then(|m| m.get("message_type", 255).cloned());
+                    if v.is_some() && v != variant_of(b.t) {
+                        rep.violation(PID, format!("history-type-{}-wrong-variant", b.t), format!("type {} message decoded as {:?} in a conversation of {} messages between two stations", b.t, v, hist.len()), || mon::replay_history(&hist, "conversation"));
+                        break;
+                    }
+                    if tf.is_some() && tf != Some(Val::U(b.t as u64)) {
+                        rep.violation(PID, format!("type-{}-wrong-type-field", b.t), format!("type {} message reports message_type {:?} in a conversation", b.t, tf), || mon::replay_history(&hist, "conversation"));
+                        break;
+                    }
+                }
+                Call::Done(_) => {}
+            }
+        }
+        if ci % 64 == 0 {
+            rep.class(format!("conversation|len{}", n));
+        }
+    }
     // payloads of 11 000 .. 350 000 characters (1.4 million in the thorough tier) under every type
     // value (std / alloc only: the no-allocator build cannot hold them): the variant is still
     // decided by the first six bits. The lengths lie beyond 2^16 bits, 2^16 bytes, 2^16 groups of
